@@ -43,8 +43,14 @@ def _(public_key: Union[RSA(256), RSA(384), ECC(256), ECC(384)], algorithm: Cons
 def _sample_key(rnd):
     from cryptography.hazmat.primitives.asymmetric import ec
     curve = rnd.choice([ec.SECP256R1(), ec.SECP384R1()])
-    # private scalars chosen so that leading-zero coordinates occur regularly would need a search; plain random keys here
     k = PublicKeyEcc(ec.derive_private_key(rnd.randrange(1, 1 << 200), curve).public_key())
+    if rnd.random() < 0.1:
+        # every tenth sample: search for a key with a leading-zero coordinate (1 key in 128 has one)
+        for _ in range(600):
+            c = PublicKeyEcc(ec.derive_private_key(rnd.randrange(1, 1 << 200), curve).public_key())
+            if c.x < (1 << (curve.key_size - 8)) or c.y < (1 << (curve.key_size - 8)):
+                k = c
+                break
     return {"public_key": k, "algorithm": None}
 
 
